@@ -73,7 +73,7 @@ def worker(wid, jobs, group_checks):
             group, f, idx, line, fn, desc = job
             rec = dict(group=group, file=f, idx=idx, line=line, func=fn, desc=desc)
             t0 = time.time()
-            rc, out = sh([MUTGEN, "-apply", str(idx), os.path.join("/repo", f)])
+            rc, out = sh([MUTGEN, "-apply", str(idx), os.path.join(wt, f)])  # the worktree file is pristine (HEAD) here
             if rc != 0:
                 rec["status"] = "mutgen-error"
             else:
